@@ -59,12 +59,20 @@ PROPS = {
              "ChangeGroupTrigger (add/delete, 1..4 pairs each, ~25% out-of-range / negative / self / repeated indices), StopTriggerCoupling, "
              "LanceroSource.SetCoupling (err->fb, fb->err, none) and Distribute with random primary frames per channel; after every op the "
              "reported ComputeGroupTriggerState, the broker counter and the distribution are compared with the model and judged by the "
-             "set-theoretic oracle. Non-trivial = a distribution that delivered at least one secondary list; distinct by input line.",
-        nontrivial=["dist"],
+             "set-theoretic oracle. In addition `pipe` cases (250 quick / 1500 per job thorough, child processes) run the REAL pipeline — ConfigureTriggers, "
+             "ChangeGroupTrigger add/delete between blocks, StopTriggerCoupling, ProcessSegments on trigger-rich streams of 2..4 channels with chains, "
+             "fans, cycles and self connections — and every block's published records are judged by the source-level statement of the property "
+             "(theorem Pipe.C09_source_level): what a channel published beyond its own primaries is exactly the multiset of its connected sources' "
+             "primary frames of that cycle; the model is compared record for record as well. "
+             "Non-trivial = a distribution that delivered at least one secondary list, or a pipeline case with secondary records; distinct by input line.",
+        nontrivial=["dist", "pipeline-secondaries"],
+        lean_files=["C09", "C09Pipe", "PipeGroup"],
         jobs=seeds(1, 6),
         trusted_base=["Go map semantics (a set of sources per receiver) modelled as a duplicate-free pair list; map iteration order is irrelevant "
                       "because outputs are sorted before comparison"],
-        assumptions=["record content of secondaries (receiver's own samples at the frame) is covered by the C01 pipeline check, not here"],
+        assumptions=["record content of secondaries (receiver's own samples at the frame) is covered by the C01 pipeline check, not here",
+                     "in the pipeline cases the primaries are those of the model's trigger pass on the same data (compared record for record by C01); "
+                     "a case whose implementation primaries are not all present is left to the correspondence difference"],
     ),
 }
 
